@@ -6,3 +6,8 @@ From Az65.Gen Require Import LinkArms.
 (* the linked image is handed to the output whole, once, after every link has succeeded *)
 Theorem generated_output_is_write_all : gen_link_output_is_write_all = true.
 Proof. reflexivity. Qed.
+
+(* the reference check (every touched symbol must be defined and solvable) is the first thing the link step does:
+   no path returns, or writes, before it (Linker.link_all: check_refs, then apply_links) *)
+Theorem generated_references_checked_first : gen_link_references_checked_first = true.
+Proof. reflexivity. Qed.
